@@ -452,7 +452,14 @@ fn gen_c15_pattern(r: &mut StdRng) -> String {
 /// in the first or the second mode). The verdict is left to the specification: the harness only
 /// translates the text into an AST (syntax error / unsupported / open / supported nodes).
 fn record_c15(b: &mut Batch, r: &mut StdRng, trace_id: usize) {
-    let text = gen_c15_pattern(r);
+    let mut text = gen_c15_pattern(r);
+    // a third of the patterns get a long literal prefix of mixed 1-4 byte characters: whatever
+    // build() does with the pattern text (error messages, keys, labels) sees long non-ASCII input
+    if r.gen_bool(0.33) {
+        let n = r.gen_range(10..=70);
+        let prefix: String = (0..n).map(|_| *['a', 'b', 'z', '0', '_', 'ä', 'é', '€', '日', '😀'].choose(r).unwrap()).collect();
+        text = format!("{prefix}{text}");
+    }
     let place = r.gen_range(0..4);
     let good = |p: &str, tt: usize| RealPat { pattern: p.to_string(), tt, la: None };
     let modes: Vec<RealMode> = match place {
